@@ -37,6 +37,7 @@ properties! {
     "C17" => c17,
     "C18" => c18,
     "C19" => c19,
+    "C20" => c20,
 }
 
 fn main() {
